@@ -399,6 +399,11 @@ MUTANTS += [
     ("c02-coupling-inverse-drops-split-logdet", ["C02"], [(CPL, "        logabsdet += logabsdet_split\n", "")], "INV-ROUND"),
 ]
 
+MUTANTS += [
+    ("c08-inverse-stored-iterator", ["C08"], [(TB, "        self._transforms = nn.ModuleList(transforms)", "        self._transforms = nn.ModuleList(transforms)\n        self._inverse_transforms = reversed(self._transforms)"), (TB, "funcs = (transform.inverse for transform in self._transforms[::-1])", "funcs = (transform.inverse for transform in self._inverse_transforms)")], "CMP-ORDER"),
+    ("c05-cdn-reshape-not-transpose", ["C05"], [("nflows/distributions/normal.py", "        means = torchutils.repeat_rows(means, num_samples)\n        stds = torchutils.repeat_rows(stds, num_samples)\n", ""), ("nflows/distributions/normal.py", "        noise = torch.randn(context_size * num_samples, *\n                            self._shape, device=means.device)\n        samples = means + stds * noise\n        return torchutils.split_leading_dim(samples, [context_size, num_samples])", "        noise = torch.randn(num_samples, context_size, *self._shape, device=means.device)\n        samples = means + stds * noise\n        return samples.reshape(context_size, num_samples, *self._shape)")], "LEAD-LAYOUT"),
+]
+
 # ---- C11 LIN-WORD / LIN-LOGDET on the matrix-word algebra ----
 MUTANTS += [
     ("c11w-lu-weight-order", ["C11"], [(LU, "        return lower @ upper", "        return upper @ lower")], "LIN-WORD"),
@@ -446,6 +451,8 @@ MUTANTS += [
 ]
 
 BENIGN = [
+    ("b-c08-inverse-list-stored", ["C08", "C15", "C13"], [(TB, "        self._transforms = nn.ModuleList(transforms)", "        self._transforms = nn.ModuleList(transforms)\n        self._inverse_transforms = list(reversed(self._transforms))"), (TB, "funcs = (transform.inverse for transform in self._transforms[::-1])", "funcs = (transform.inverse for transform in self._inverse_transforms)")]),
+    ("b-c05-cdn-sample-major-transposed", ["C05", "C04", "C18"], [("nflows/distributions/normal.py", "        means = torchutils.repeat_rows(means, num_samples)\n        stds = torchutils.repeat_rows(stds, num_samples)\n", ""), ("nflows/distributions/normal.py", "        noise = torch.randn(context_size * num_samples, *\n                            self._shape, device=means.device)\n        samples = means + stds * noise\n        return torchutils.split_leading_dim(samples, [context_size, num_samples])", "        noise = torch.randn(num_samples, context_size, *self._shape, device=means.device)\n        samples = means + stds * noise\n        return samples.transpose(0, 1)")]),
     ("b-c02-coupling-inverse-tidy", ["C02", "C07", "C01", "C13"], [(CPL, "        logabsdet = 0.0\n        if self.unconditional_transform is not None:\n            identity_split, logabsdet = self.unconditional_transform.inverse(\n                identity_split, context\n            )\n\n        transform_params = self.transform_net(identity_split, context)\n        transform_split, logabsdet_split = self._coupling_transform_inverse(\n            inputs=transform_split, transform_params=transform_params\n        )\n        logabsdet += logabsdet_split\n", "        logabsdet_identity = 0.0\n        if self.unconditional_transform is not None:\n            identity_split, logabsdet_identity = self.unconditional_transform.inverse(\n                identity_split, context\n            )\n\n        transform_split, logabsdet = self._coupling_transform_inverse(\n            inputs=transform_split,\n            transform_params=self.transform_net(identity_split, context),\n        )\n        logabsdet = logabsdet + logabsdet_identity\n")]),
     ("b-c06-inverse-last-pass-outside", ["C06", "C01", "C02", "C16", "C13"], [(AR, "        for _ in range(num_inputs):\n            autoregressive_params = self.autoregressive_net(outputs, context)\n            outputs, logabsdet = self._elementwise_inverse(\n                inputs, autoregressive_params\n            )", "        for _ in range(num_inputs - 1):\n            autoregressive_params = self.autoregressive_net(outputs, context)\n            outputs, _ = self._elementwise_inverse(inputs, autoregressive_params)\n        autoregressive_params = self.autoregressive_net(outputs, context)\n        outputs, logabsdet = self._elementwise_inverse(inputs, autoregressive_params)")]),
     ("b-c03-normal-pow-half", ["C03", "C05"], [("nflows/distributions/normal.py", "        neg_energy = -0.5 * \\\n            torchutils.sum_except_batch(inputs ** 2, num_batch_dims=1)", "        neg_energy = -torchutils.sum_except_batch(inputs.pow(2), num_batch_dims=1) / 2")]),
